@@ -10,14 +10,23 @@ import models as M
 T = __T__
 P = M.P
 INPUTS = [[P + 'A1'], [P + 'A2'], [P + 'A1', P + 'A2'], [M.NAME], [M.NAME, P + 'A2'], [P + 'A2', P + 'A1'], [P + 'B1'],
-          [P + 'A1', P + 'B1']]
+          [P + 'A1', P + 'B1'], [M.BLOCK], [M.BLOCK, P + 'A1'], ['RANGE'], [P + 'I1', P + 'H2']]
+OUTPUTS_BLOCK = [P + 'J1', P + 'J2', P + 'J3']
 OUTPUTS = [[M.Q + 'A1'], [P + 'B2', P + 'C1'], [P + 'E1:F1'], [P + 'D1', P + 'G1'], [P + 'B1', M.Q + 'A1', P + 'B2']]
 
 
 def _compiled(i, o, a, b):
     pl = M.pool()
-    inputs, outputs = INPUTS[i], OUTPUTS[o]
+    inputs, outputs = list(INPUTS[i]), list(OUTPUTS[o])
+    if inputs[0] == 'RANGE':
+        inputs[0] = M.RANGE[T][0]
+    if i >= 8:
+        outputs = outputs + OUTPUTS_BLOCK
     vals = [pl[a], pl[b]][:len(inputs)]
+    if inputs[0] == M.BLOCK:
+        vals[0] = [[pl[a], pl[b]], [pl[b], 9]]
+    elif i == 10:
+        vals[0] = [[pl[a]], [pl[b]], [pl[a]]][:len(M.RANGE[T][1])]
     if set(inputs) & set(outputs):
         return True          # an input asked back as an output: not a case the statement speaks about
     func = M.build(T).compile(inputs, outputs)
@@ -30,6 +39,10 @@ def _compiled(i, o, a, b):
         return False
     # a second call with other arguments is not influenced by the first (nothing frozen)
     vals2 = [pl[b], pl[a]][:len(inputs)]
+    if inputs[0] == M.BLOCK:
+        vals2[0] = [[pl[b], 1], [pl[a], pl[a]]]
+    elif i == 10:
+        vals2[0] = [[pl[b]], [pl[b]], [pl[a]]][:len(M.RANGE[T][1])]
     got2 = func(*vals2)
     got2 = [got2] if len(outputs) == 1 else list(got2)
     got2 = [M.norm_value(g.value if hasattr(g, 'value') else g) for g in got2]
@@ -37,14 +50,14 @@ def _compiled(i, o, a, b):
     return got2 == [M.norm_value(sol2[k].value) for k in outputs]
 
 
-def compiled_ok(i0: bool, i1: bool, i2: bool, o0: bool, o1: bool, o2: bool, a0: bool, a1: bool, a2: bool,
+def compiled_ok(i0: bool, i1: bool, i2: bool, i3: bool, o0: bool, o1: bool, o2: bool, a0: bool, a1: bool, a2: bool,
                 b0: bool, b1: bool, b2: bool) -> bool:
     """
     pre: sel(o0, o1, o2) < len(OUTPUTS)
-    pre: sel(i0, i1, i2) == __I__
+    pre: sel(i0, i1, i2, i3) == __I__
     post: _
     """
-    return concrete(_compiled, sel(i0, i1, i2), sel(o0, o1, o2), sel(a0, a1, a2), sel(b0, b1, b2))
+    return concrete(_compiled, sel(i0, i1, i2, i3), sel(o0, o1, o2), sel(a0, a1, a2), sel(b0, b1, b2))
 
 
 # --- a single formula compiled to a function ----------------------------------
